@@ -300,7 +300,7 @@ def _apply_section(sec, head, it, data, s0, e0, what, edits, drop, tags_box, ret
                 if inner is not None:
                     _record_anchors.setdefault(what, {})[head] = [inner["block"], inner["idx"]]
         except GenError:
-            ent = getattr(_tls, "anchor_map", {}).get(what, {}).get(head)
+            ent = None if getattr(_tls, "cur_optional", False) else getattr(_tls, "anchor_map", {}).get(what, {}).get(head)
             st = None
             if ent is not None:
                 st = next((x for x in it.get("stmts", []) if x["block"] == ent[0] and x["idx"] == ent[1]), None)
@@ -465,6 +465,7 @@ def expand_fn(repo, d, log, force_stub=()):
         if optional:
             head = head[1:]
         n_before = len(edits)
+        _tls.cur_optional = optional      # an optional (`?`) section that is lost is simply skipped: no structural fallback
         try:
             _apply_section(sec, head, it, data, s0, e0, what, edits, drop, tags_box, ret_box)
         except GenError as ex:
